@@ -612,8 +612,8 @@ func TestVerif_C13(t *testing.T) {
 			return
 		}
 		rawDepth := vrun.Pick(r, 4, 5)
-		lineDepth := vrun.Pick(r, 3, 4)
-		lineFullDepth := vrun.Pick(r, 2, 3) // deeper levels use the reduced line alphabet
+		lineDepth := vrun.Pick(r, 3, 3)
+		lineFullDepth := vrun.Pick(r, 2, 3) // deeper levels use the reduced line alphabet (quick: level 3; thorough: full alphabet on all 3 levels)
 		hugeLineDepth := vrun.Pick(r, 1, 2)
 		hugeRawPos := vrun.Pick(r, 2, 3)
 		hugeRawTotal := vrun.Pick(r, 3, 4)
